@@ -56,6 +56,9 @@ type c33Op struct {
 	Pkt   c33Pkt
 }
 
+// c33RateExplicitZero in a track configuration stands for an explicit WithSampleRate(0) (0 itself means "option not given").
+const c33RateExplicitZero = ^uint32(0)
+
 type c33Case struct {
 	Writer   string
 	Rate     uint32 // single: constructor argument; multi: WithSampleRate when != 0
@@ -538,7 +541,11 @@ func (e *c33Env) run(cs c33Case) {
 				if tc.Serial >= 0 {
 					topts = append(topts, WithSerial(uint32(tc.Serial))) //nolint:gosec
 				}
-				if tc.Rate != 0 {
+				if tc.Rate == c33RateExplicitZero {
+					// a track-level rate of 0 ("unspecified", RFC 7845 5.1) is a value, not "inherit the writer's"
+					topts = append(topts, WithSampleRate(0))
+					x.head.rate = 0
+				} else if tc.Rate != 0 {
 					topts = append(topts, WithSampleRate(tc.Rate))
 					x.head.rate = tc.Rate
 				}
@@ -546,6 +553,9 @@ func (e *c33Env) run(cs c33Case) {
 					topts = append(topts, o)
 					c33ApplyMap(&x.head, tc.Map)
 					x.head.rate = map[bool]uint32{true: tc.Rate, false: wRate}[tc.Rate != 0]
+					if tc.Rate == c33RateExplicitZero {
+						x.head.rate = 0
+					}
 					x.mapName = tc.Map
 				}
 				for _, o := range c33TagOpts(tc.Tags) {
@@ -658,9 +668,9 @@ func (e *c33Env) run(cs c33Case) {
 		var cur []byte
 		open := false // a packet continues from the previous page of this stream
 		completedAt := []int{}
-		cum := uint64(0)       // cumulative samples of completed data packets
-		lastGran := uint64(0)  // last real granule position
-		npk := 0               // packets completed so far
+		cum := uint64(0)      // cumulative samples of completed data packets
+		lastGran := uint64(0) // last real granule position
+		npk := 0              // packets completed so far
 		granOK := true
 		for k, pi := range idx {
 			pg := pages[pi]
@@ -1064,7 +1074,7 @@ func TestVerifC33(t *testing.T) { //nolint:cyclop,maintidx
 			for _, wtags := range []string{"", "long"} {
 				for _, mapA := range maps {
 					for _, tagsB := range tags {
-						for _, rateA := range []uint32{0, 8000} {
+						for _, rateA := range []uint32{0, 8000, c33RateExplicitZero} {
 							for _, serial := range []int64{-1, 5} {
 								if c.Quick() && (serial == 5) != (rateA == 0) {
 									continue
